@@ -48,6 +48,8 @@ VALID = [
     # experiments named like the FIELDS other texts (and other evaluators) read: uid, plan
     'def plan { splitters: uid return "A" weighted 1, "B" weighted 2 }',
     'def uid { salt: "u" splitters: plan return "A" weighted 2, "B" weighted 1 }',
+    # a switched-off branch (its statement weighs nothing; never reached by the probes): compiles like any other text
+    'def exp { splitters: uid if plan == "XX" { return "off" weighted 0 } else { return "A" weighted 1, "B" weighted 2 } }',
     # ==-equal group values of different type / sign
     'def num { splitters: uid return 1 weighted 1, 2 weighted 1 }',
     'def num { splitters: uid return 1.0 weighted 1, 2.0 weighted 1 }',
@@ -468,6 +470,8 @@ def more_fixed():
     yield {"ops": [["new", ws1], ["recompile", 0, ws2, True], ["call", 0, 0], ["recompile", 0, ws1, True], ["call", 0, 1], ["recompile", 0, u1, True],
                    ["recompile", 0, u2, True], ["call", 0, 2], ["recompile_invalid", 0, 1, True], ["recompile_invalid", 0, 1, True], ["call", 0, 3],
                    ["recompile", 0, u1, True], ["recompile_invalid", 0, 0, True], ["recompile", 0, a, True], ["recompile", 0, b, True], ["call", 0, 0]]}
+    off = _idx('def exp { splitters: uid if plan == "XX" { return "off"')
+    yield {"ops": [["new", a], ["recompile", 0, off], ["call", 0, 0], ["recompile", 0, a], ["call", 0, 1], ["new", off], ["recompile", 1, b], ["recompile", 1, off], ["call", 1, 2]]}
     named_plan, named_uid = _idx("def plan { splitters: uid"), _idx('def uid { salt: "u"')
     yield {"ops": [["new", both], ["call", 0, 0], ["new", named_plan], ["call", 1, 1], ["recompile", 0, named_uid], ["call", 0, 2], ["recompile", 1, both],
                    ["recompile", 1, named_plan], ["new", named_uid], ["call", 2, 0]]}
